@@ -122,9 +122,11 @@ Fixpoint printable (s : string) : bool :=
 
 (* a range list cut down to the printable codes, as an explicit sorted code list: two classes are equal on
    printable text iff their code lists are equal *)
-Fixpoint upto (n : nat) : list nat := match n with O => [] | S k => (upto k ++ [k])%list end.
+Fixpoint upto_acc (n : nat) (acc : list nat) : list nat :=
+  match n with O => acc | S k => upto_acc k (k :: acc) end.
+Definition upto (n : nat) : list nat := upto_acc n [].
 Definition codes_of (p : cset) : list nat :=
-  filter (fun n => printable_code n && existsb (in_range n) p) (upto 128).
+  filter (fun n => if printable_code n then existsb (in_range n) p else false) (upto 128).
 
 Fixpoint nats_eqb (a b : list nat) : bool :=
   match a, b with
